@@ -935,8 +935,8 @@ fn interleave_special(out: &mut Out, rng: &mut Rng, thorough: bool) {
             let mgr = std_mgr();
             out.begin("interleave", Obj::new().str("what", "reuse_across_trains").boolean("lock", false).raw("rx", &jrxcfg(2, PDU_SIZE, &mgr).end()));
             let mut enc = Encapsulator::new(DefaultCrc {});
-            let a = Pdu::random(out, rng.range(9, 40), rng);
-            let b = Pdu::random(out, rng.range(9, 40), rng);
+            let a = Pdu::random(out, rng.range(24, 40), rng);
+            let b = Pdu::random(out, rng.range(24, 40), rng);
             let pa = frags3(out, &mut enc, &a, 20, LA6);
             let pb = frags3(out, &mut enc, &b, 21, LA6);
             let (pa, pb) = match (pa, pb) {
